@@ -34,8 +34,10 @@ def _unique_windows(gaps, w=6, tol=400):
     return True
 
 
-def catalogue_ref(k, family='menu', nlabels=70, ref_id=1, lead=14000, decimals=False):
-    """k-th catalogue reference of a family: (id, contigLength, [positions]).  Deterministic."""
+def catalogue_ref(k, family='menu', nlabels=70, ref_id=1, lead=14000, decimals=False, dense_head=False):
+    """k-th catalogue reference of a family: (id, contigLength, [positions]).  Deterministic.
+    dense_head: the first labels sit 2-3.3 kb apart right at the start of the contig (lead 500), so that interior windows begin
+    within the secondary margin of coordinate 0 (the refine step then asks for a reference slice with a negative start)."""
     sub = 0
     while True:
         rnd = random.Random('coma-catalogue/%s/%d/%d/%d' % (family, k, nlabels, sub))
@@ -44,9 +46,17 @@ def catalogue_ref(k, family='menu', nlabels=70, ref_id=1, lead=14000, decimals=F
         if mean < 9000 and family != 'lattice1400':
             f = 9000.0 / mean
             gaps = [float(int(g * f * 10) / 10) for g in gaps]
+        if dense_head:
+            lead = 500
+            gaps[:7] = [2000, 3300, 2600, 4200, 2000, 2600, 3300]      # no window may equal another one or its reverse within 400 bp
+            if sum(gaps) / len(gaps) < 9000:
+                sub += 1
+                continue
         if min(gaps) >= 2000 and _unique_windows(gaps):
             break
         sub += 1
+        if sub > 5000:
+            raise RuntimeError('catalogue_ref(%r, %r): no admissible gap word found' % (k, family))
     pos = [float(lead)]
     for g in gaps:
         pos.append(round(pos[-1] + g, 1))
